@@ -58,6 +58,15 @@ CLAIMS = {
          "The library's list of rankings and reported score are compared with the model and re-judged against kemeny_spec in Coq.",
          "Trusted: Coq kernel + vm_compute; model; harness; the scores are kemeny_spec (C01 ties get_kemeny_score to it).",
          "DESIGN.md section 4, C10"),
+ "C11": ("Coq theorems over a Gallina model of kwiksortabs/kwiksortrandom (pivot script as input) + exhaustive pivot-script correspondence",
+         "Machine-checked for all datasets, schemes and pivot scripts: the vectorised placement test equals the tie-preferring then "
+         "before-preferring arg-min of the definitional costs; every run returns a partition into non-empty buckets; if the preferences "
+         "form a ranking with ties the result orders and ties the elements exactly as that ranking for every script and every listing of "
+         "the universe; identical rankings are returned unchanged when T0 > 0; each recursion step places every element w.r.t. its pivot "
+         "according to the placement test. Tie to the code: random.choice scripted, ALL n^n scripts for universes <= 4, random beyond; "
+         "_where_should_it_be at unit level.",
+         "Trusted: Coq kernel + vm_compute; model; harness (choice patched as module attribute; list(universe) order observed).",
+         "DESIGN.md section 4, C11"),
 }
 NOT_YET = "check not built yet in this phase (planned: DESIGN.md section 4); no claim is made"
 
